@@ -14,8 +14,9 @@ ASSUMPTIONS = ['reference model: definitions in document order of their first li
                '[ \\t\\r\\n]+ collapsed to one space, Unicode case-folded; first definition of a key wins']
 
 DEF_LABELS_SMALL = ['foo', 'FOO', 'Foo', 'fooo']
-DEF_LABELS = ['foo', 'Foo', 'FOO', 'f oo', 'f  oo', 'f\noo', 'ẞ', 'SS', 'ss', 'Ǆ', 'ǆ', 'fooo']
-USE_LABELS = ['foo', 'FOO', 'f oo', 'F  OO', 'ss', 'ẞ', 'ǆ', 'fooo', 'bar']
+# 'f\\_o': a label with a backslash escape (labels are matched on their source text, the backslash is part of the key)
+DEF_LABELS = ['foo', 'Foo', 'FOO', 'f oo', 'f  oo', 'f\noo', 'ẞ', 'SS', 'ss', 'Ǆ', 'ǆ', 'fooo', 'f\\_o']
+USE_LABELS = ['foo', 'FOO', 'f oo', 'F  OO', 'ss', 'ẞ', 'ǆ', 'fooo', 'bar', 'F\\_O']
 TITLE_STYLES = ['"', "'", '(', None, 'nextline']
 BOUNDS = {'quick': dict(blocks=3, defs=2, lattice_defs=2), 'thorough': dict(blocks=4, defs=3, lattice_defs=3)}
 
@@ -39,7 +40,9 @@ def norm(label):
     return re.sub(r'[ \t\r\n]+', ' ', label.strip(' \t\r\n')).casefold()
 
 
-USE_TEXT = 'a [{l}] b [{l}][] c [t][{l}] d ![{l}] e ![i][{l}] f [{l}][zz] g'
+# the last form: an image whose description holds a bracketed group around a reference link (the description is flattened
+# to alt text, so only the image shows)
+USE_TEXT = 'a [{l}] b [{l}][] c [t][{l}] d ![{l}] e ![i][{l}] f [{l}][zz] g ![x [[{l}]] y][{l}] h'
 
 
 def use_text(labels):
@@ -54,6 +57,7 @@ def model_uses(labels, table):
         for kind in ('a', 'a', 'a', 'img', 'img'):
             out.append((kind,) + hit if hit else None)
         out.append(None)        # [l][zz]: full reference to an undefined label stays literal even if l itself is defined
+        out.append(('img',) + hit if hit else None)
     return out
 
 
@@ -110,6 +114,7 @@ def set_use_texts(blocks, labels):
 
 
 TAG = re.compile(r'<(a|img)\b([^>]*)>')
+UNESC = re.compile(r'\\([!-/:-@\[-`{-~])')
 
 
 def observe(out):
@@ -148,13 +153,13 @@ def evaluate(md, use_labels, nuse_blocks, defs):
     # unresolved uses stay literal
     for l in use_labels:
         if norm(l) not in table:
-            lit = html.escape(USE_TEXT.format(l=l), quote=False)
+            lit = html.escape(UNESC.sub(r'\1', USE_TEXT.format(l=l)), quote=False)
             if text.count(lit) != nuse_blocks:
                 return dict(sig='unresolved-use-not-literal', expected=lit, observed=out)
     if ']:' in text or '/d' in text or re.search(r'T\d', text):
         return dict(sig='definition-text-in-output', observed=out)
     for l in use_labels:
-        lit = html.escape('f [%s][zz] g' % l, quote=False)
+        lit = html.escape(UNESC.sub(r'\1', 'f [%s][zz] g' % l), quote=False)
         if text.count(lit) < nuse_blocks:
             return dict(sig='full-reference-to-undefined-label-not-literal', expected=lit, observed=out)
     want_foot = {k: (html.unescape(d).replace('%20', ' '), t) for k, (d, t) in table.items()}
